@@ -1,81 +1,63 @@
 use serde::{Deserialize, Serialize};
 use serde_saphyr::*;
 use std::rc::Rc;
-use std::collections::BTreeMap;
+use std::sync::Arc;
 
 #[derive(Serialize, Deserialize, Debug)]
-struct C { id: u32, next: Option<RcRecursive<C>>, kids: Vec<RcRecursive<C>>, back: Vec<RcRecursion<C>>, m: BTreeMap<String, RcRecursion<C>> }
+struct Inner { name: String }
 #[derive(Serialize, Deserialize, Debug)]
-struct R { root: RcRecursive<C>, more: Vec<RcRecursive<C>>, w: Vec<RcRecursion<C>> }
+struct Outer { a: RcAnchor<Inner>, b: RcAnchor<Inner> }
+#[derive(Serialize, Deserialize, Debug)]
+struct Top { outer: RcAnchor<Outer> }
 
-fn c(id: u32) -> RcRecursive<C> { RcRecursive::wrapping(C{id, next: None, kids: vec![], back: vec![], m: BTreeMap::new()}) }
+#[derive(Serialize, Deserialize)]
+struct C { id: u32, kids: Vec<ArcRecursive<C>>, up: Vec<ArcRecursion<C>> }
+#[derive(Serialize, Deserialize)]
+struct Items { items: Vec<ArcRecursive<C>> }
+
+#[derive(Serialize, Deserialize)]
+struct RC { id: u32, w: Vec<RcRecursion<RC>> }
+#[derive(Serialize, Deserialize)]
+struct RTop { root: RcRecursive<RC> }
 
 #[derive(Serialize, Deserialize, Debug)]
-struct P { s: Vec<RcAnchor<String>>, v: Vec<RcAnchor<Vec<i32>>>, o: Vec<RcAnchor<Option<i32>>>, u: Vec<RcAnchor<()>>, m: BTreeMap<String, RcAnchor<BTreeMap<String,i32>>>, e: Vec<E>, t: (RcAnchor<i32>, RcAnchor<i32>) }
-#[derive(Serialize, Deserialize, Debug)]
-enum E { L(i32), R(RcAnchor<String>), P{ l: RcAnchor<String>, r: RcAnchor<String> }, U }
+struct Opt { first: RcAnchor<Option<i32>>, mid: i32, second: RcAnchor<Option<i32>> }
 
 fn main() {
-    // A -> B -> weak A, self loop on B, shared strong B
-    let a = c(1); let b = c(2);
-    b.0.borrow_mut().as_mut().unwrap().back.push(RcRecursion::from(&a));
-    b.0.borrow_mut().as_mut().unwrap().back.push(RcRecursion::from(&b));
-    b.0.borrow_mut().as_mut().unwrap().m.insert("k".into(), RcRecursion::from(&a));
-    a.0.borrow_mut().as_mut().unwrap().next = Some(RcRecursive(b.0.clone()));
-    a.0.borrow_mut().as_mut().unwrap().kids.push(RcRecursive(b.0.clone()));
-    let dang = { let x = c(9); RcRecursion::from(&x) };
-    let r = R { root: RcRecursive(a.0.clone()), more: vec![RcRecursive(b.0.clone()), c(3)], w: vec![RcRecursion::from(&b), RcRecursion::from(&a)] };
-    let s = to_string(&r).unwrap();
-    println!("--- rec:\n{s}");
-    match from_str::<R>(&s) { Ok(r2) => {
-        let a2 = &r2.root; let ab = a2.borrow(); let b2 = ab.next.as_ref().unwrap();
-        println!("b shared next/kids: {}", Rc::ptr_eq(&b2.0, &ab.kids[0].0));
-        println!("b shared more: {}", Rc::ptr_eq(&b2.0, &r2.more[0].0));
-        let bb = b2.borrow();
-        println!("b.back0==a {}", bb.back[0].upgrade().map(|u| Rc::ptr_eq(&u.0,&a2.0)).unwrap_or(false));
-        println!("b.back1==b {}", bb.back[1].upgrade().map(|u| Rc::ptr_eq(&u.0,&b2.0)).unwrap_or(false));
-        println!("b.m.k==a {}", bb.m["k"].upgrade().map(|u| Rc::ptr_eq(&u.0,&a2.0)).unwrap_or(false));
-        println!("w0==b {}", r2.w[0].upgrade().map(|u| Rc::ptr_eq(&u.0,&b2.0)).unwrap_or(false));
-    } Err(e) => println!("ERR {e}") }
-    let r = R { root: c(1), more: vec![], w: vec![dang] };
-    let s = to_string(&r).unwrap();
-    println!("--- rec dangling:\n{s}");
-    println!("{:?}", from_str::<R>(&s).map(|r| r.w[0].is_dangling()).map_err(|e| e.to_string()));
-    // recursion before recursive
-    #[derive(Serialize, Deserialize, Debug)]
-    struct R2 { w: Vec<RcRecursion<C>>, root: RcRecursive<C> }
-    let a = c(1);
-    let r = R2 { w: vec![RcRecursion::from(&a)], root: a };
-    let s = to_string(&r).unwrap();
-    println!("--- recursion first:\n{s}");
-    println!("{:?}", from_str::<R2>(&s).map(|r| r.w[0].upgrade().map(|u| Rc::ptr_eq(&u.0,&r.root.0))).map_err(|e| e.to_string()));
-
-    // payloads
-    let s1 = Rc::new(String::from("hello")); let s2 = Rc::new(String::new()); let s3 = Rc::new("multi\nline\n".to_string());
-    let v1 = Rc::new(vec![1,2]); let v0 = Rc::new(vec![]);
-    let o0 = Rc::new(None); let o1 = Rc::new(Some(3));
-    let u = Rc::new(());
-    let m0 = Rc::new(BTreeMap::new()); let m1 = Rc::new([("x".to_string(), 1)].into_iter().collect::<BTreeMap<_,_>>());
-    let i = Rc::new(5);
-    let p = P {
-        s: vec![RcAnchor(s1.clone()), RcAnchor(s2.clone()), RcAnchor(s3.clone()), RcAnchor(s1.clone()), RcAnchor(s2.clone()), RcAnchor(s3.clone())],
-        v: vec![RcAnchor(v1.clone()), RcAnchor(v0.clone()), RcAnchor(v1.clone()), RcAnchor(v0.clone())],
-        o: vec![RcAnchor(o0.clone()), RcAnchor(o1.clone()), RcAnchor(o0.clone()), RcAnchor(o1.clone())],
-        u: vec![RcAnchor(u.clone()), RcAnchor(u.clone())],
-        m: [("a".to_string(), RcAnchor(m0.clone())), ("b".to_string(), RcAnchor(m1.clone())), ("c".to_string(), RcAnchor(m0.clone())), ("d".to_string(), RcAnchor(m1.clone()))].into_iter().collect(),
-        e: vec![E::L(1), E::R(RcAnchor(s1.clone())), E::P{l: RcAnchor(s1.clone()), r: RcAnchor(s2.clone())}, E::U],
-        t: (RcAnchor(i.clone()), RcAnchor(i.clone())),
-    };
-    let s = to_string(&p).unwrap();
-    println!("--- payloads:\n{s}");
-    match from_str::<P>(&s) { Ok(q) => {
-        println!("s: {} {} {}", Rc::ptr_eq(&q.s[0].0,&q.s[3].0), Rc::ptr_eq(&q.s[1].0,&q.s[4].0), Rc::ptr_eq(&q.s[2].0,&q.s[5].0));
-        println!("s vals {:?} {:?} {:?}", q.s[0].0, q.s[1].0, q.s[2].0);
-        println!("v: {} {} {:?} {:?}", Rc::ptr_eq(&q.v[0].0,&q.v[2].0), Rc::ptr_eq(&q.v[1].0,&q.v[3].0), q.v[0].0, q.v[1].0);
-        println!("o: {} {}", Rc::ptr_eq(&q.o[0].0,&q.o[2].0), Rc::ptr_eq(&q.o[1].0,&q.o[3].0));
-        println!("u: {}", Rc::ptr_eq(&q.u[0].0,&q.u[1].0));
-        println!("m: {} {}", Rc::ptr_eq(&q.m["a"].0,&q.m["c"].0), Rc::ptr_eq(&q.m["b"].0,&q.m["d"].0));
-        println!("t: {}", Rc::ptr_eq(&q.t.0.0,&q.t.1.0));
-        if let (E::R(x), E::P{l, r}) = (&q.e[1], &q.e[2]) { println!("e: {} {} {}", Rc::ptr_eq(&x.0,&l.0), Rc::ptr_eq(&x.0, &q.s[0].0), Rc::ptr_eq(&r.0, &q.s[1].0)); }
-    } Err(e) => println!("ERR {e}") }
+    // D3-strong: unanchored wrapper nodes nested in an anchored wrapper node
+    let y = "outer: &o\n  a:\n    name: x\n  b:\n    name: y\n";
+    match from_str::<Top>(y) {
+        Ok(t) => println!("D3s: a={:?} b={:?} ptr_eq={}", t.outer.a.name, t.outer.b.name, Rc::ptr_eq(&t.outer.a.0, &t.outer.b.0)),
+        Err(e) => println!("D3s: ERR {e}"),
+    }
+    // D3: dangling RcRecursion nested in a RcRecursive
+    let dropped = { let x = RcRecursive::wrapping(RC { id: 9, w: vec![] }); RcRecursion::from(&x) };
+    let t = RTop { root: RcRecursive::wrapping(RC { id: 1, w: vec![dropped] }) };
+    let s = to_string(&t).unwrap();
+    print!("D3 text:\n{s}");
+    match from_str::<RTop>(&s) {
+        Ok(t2) => { let r = t2.root.borrow(); println!("D3: dangling={} points_to_root={}", r.w[0].is_dangling(), r.w[0].upgrade().map(|u| Rc::ptr_eq(&u.0, &t2.root.0)).unwrap_or(false)); }
+        Err(e) => println!("D3: ERR {e}"),
+    }
+    // payload: anchor leaks
+    let n = Rc::new(None);
+    let o = Opt { first: RcAnchor(n.clone()), mid: 7, second: RcAnchor(n) };
+    let s = to_string(&o).unwrap();
+    print!("P1 text:\n{s}");
+    println!("P1: {:?}", from_str::<Opt>(&s).map(|o| (*o.first.0, *o.second.0)).map_err(|e| e.to_string()));
+    // D4 deadlock: run last, in a thread, with a timeout
+    let (tx, rx) = std::sync::mpsc::channel();
+    std::thread::spawn(move || {
+        let parent = ArcRecursive::wrapping(C { id: 0, kids: vec![], up: vec![] });
+        let child = ArcRecursive::wrapping(C { id: 1, kids: vec![], up: vec![ArcRecursion::from(&parent)] });
+        parent.lock().unwrap().as_mut().unwrap().kids.push(ArcRecursive(child.0.clone()));
+        let doc = Items { items: vec![child, parent] };
+        let r = to_string(&doc);
+        let _ = tx.send(r.is_ok());
+    });
+    match rx.recv_timeout(std::time::Duration::from_secs(5)) {
+        Ok(ok) => println!("D4: to_string returned ok={ok}"),
+        Err(_) => println!("D4: to_string did not return within 5 s (deadlock)"),
+    }
+    let _ = Arc::new(0);
 }
